@@ -74,7 +74,27 @@ impl<S: TokenSink> TokenSink for Proxy<'_, S> {
     }
 }
 
+thread_local! {
+    static ORACLE_PANICKED: std::cell::Cell<bool> = const { std::cell::Cell::new(false) };
+}
+
+/// true if html5ever itself panicked since the last call (html5ever 0.39 indexes out of bounds in
+/// `extract_a_character_encoding_from_a_meta_element` for `content="text/html; charset"`): the oracle has no opinion then
+pub fn take_oracle_panicked() -> bool {
+    ORACLE_PANICKED.with(|c| c.replace(false))
+}
+
 pub fn html5ever_tokens(input: &str) -> Vec<HTok> {
+    match std::panic::catch_unwind(|| html5ever_tokens_inner(input)) {
+        Ok(t) => t,
+        Err(_) => {
+            ORACLE_PANICKED.with(|c| c.set(true));
+            vec![]
+        }
+    }
+}
+
+fn html5ever_tokens_inner(input: &str) -> Vec<HTok> {
     let mut tokens = Vec::new();
     let b = BufferQueue::default();
     b.push_back(StrTendril::from(input));
@@ -106,6 +126,16 @@ pub enum ProbeCtx {
 
 /// where does the real tree builder put an unknown start tag appended to `prefix`?
 pub fn probe_context(prefix: &str) -> ProbeCtx {
+    match std::panic::catch_unwind(|| probe_context_inner(prefix)) {
+        Ok(c) => c,
+        Err(_) => {
+            ORACLE_PANICKED.with(|c| c.set(true));
+            ProbeCtx::Ignored
+        }
+    }
+}
+
+fn probe_context_inner(prefix: &str) -> ProbeCtx {
     use html5ever::tendril::TendrilSink;
     use markup5ever_rcdom::{Handle, NodeData};
     let mut doc = String::with_capacity(prefix.len() + 8);
